@@ -62,6 +62,10 @@ type jrTransport struct {
 	closes   int
 	notify   chan struct{}
 	wake     chan struct{} // wakes the blocked Read
+	// write-return gate (own.go): a Write whose bytes match holdPred hands them to the peer at once and then does not
+	// RETURN to its caller before releaseWrite
+	holdPred func(p []byte) bool
+	held     chan struct{} // non-nil while a Write is being held
 }
 
 func newJrTransport() *jrTransport {
@@ -86,7 +90,11 @@ func (t *jrTransport) Read(p []byte) (int, error) {
 			n := copy(p, t.in)
 			t.in = t.in[n:]
 			t.parked = false
+			empty := len(t.in) == 0
 			t.mu.Unlock()
+			if empty {
+				t.poke() // (event "everything written so far has been consumed", own.go)
+			}
 			return n, nil
 		}
 		if t.eof {
@@ -114,17 +122,53 @@ func (t *jrTransport) Write(p []byte) (int, error) {
 		return 0, &net.OpError{Op: "write", Net: "verif", Err: net.ErrClosed}
 	}
 	t.out = append(t.out, p...)
+	var gate chan struct{}
+	if t.holdPred != nil && t.holdPred(p) {
+		gate = make(chan struct{})
+		t.held = gate
+		t.holdPred = nil
+	}
 	t.mu.Unlock()
 	t.poke()
+	if gate != nil {
+		<-gate // the peer has the bytes; the sender is still inside Write
+		t.poke()
+	}
 	return len(p), nil
 }
+
+// holdNext arms the gate: the next Write whose bytes satisfy pred is held
+func (t *jrTransport) holdNext(pred func(p []byte) bool) { t.mu.Lock(); t.holdPred = pred; t.mu.Unlock() }
+
+// holding reports whether a Write is being held right now
+func (t *jrTransport) holding() bool { t.mu.Lock(); defer t.mu.Unlock(); return t.held != nil }
+
+// releaseWrite lets the held Write return (no-op when none is held)
+func (t *jrTransport) releaseWrite() {
+	t.mu.Lock()
+	g := t.held
+	t.held = nil
+	t.holdPred = nil
+	t.mu.Unlock()
+	if g != nil {
+		close(g)
+	}
+}
+
+// consumed: everything the server wrote has been read by the driver
+func (t *jrTransport) consumed() bool { t.mu.Lock(); defer t.mu.Unlock(); return len(t.in) == 0 || t.closed }
 
 func (t *jrTransport) Close() error {
 	t.mu.Lock()
 	t.closed = true
 	t.closes++
 	err := t.closeErr
+	g := t.held
+	t.held = nil
 	t.mu.Unlock()
+	if g != nil {
+		close(g)
+	}
 	t.kick()
 	t.poke()
 	return err
